@@ -369,7 +369,7 @@ theorem C02_position (r : Reader) (enc t : Bytes) (h : r.rest = enc ++ t) :
 
 example : (Reader.mk0 (writeInt64 (-129) 200 ++ [byte 7])).rest = writeInt64 (-129) 200 ++ [byte 7] := rfl
 example : readInt64 5 200 true (Reader.mk0 (writeInt64 (-129) 200 ++ [byte 7]))
-    = (.ok (-129), ⟨writeInt64 (-129) 200 ++ [byte 7], 4⟩) := by rfl
+    = (.ok (-129), ⟨(writeInt64 (-129) 200 ++ [byte 7]).toArray, 4⟩) := by rfl
 example : writeInt64 (-129) 200 = [byte 0xF1, byte 200, byte 0xFF, byte 0x7F] := by decide
 
 end Tars
